@@ -831,6 +831,8 @@ func siteKind(in ssa.Instruction) string {
 		return "div"
 	case *ssa.Call:
 		return "call." + calleeName(x.Common())
+	case *ssa.Convert:
+		return "convert"
 	}
 	return fmt.Sprintf("%T", in)
 }
